@@ -64,6 +64,26 @@ fn main() {
                 .unwrap();
             let _ = h.join();
         }
+        "direct" => {
+            // oalv direct <workload> <tier> <seed> <lo> <hi>: run cases in this process (used under Miri)
+            if args.len() < 7 {
+                usage();
+            }
+            let Some(wl) = checks::workload(&args[2], &args[3]) else {
+                eprintln!("unknown workload {}", args[2]);
+                std::process::exit(2);
+            };
+            let seed: u64 = args[4].parse().unwrap_or(1);
+            let lo: u64 = args[5].parse().unwrap_or(0);
+            let hi: u64 = args[6].parse().unwrap_or(0);
+            let mut st = util::Stats::new();
+            for idx in lo..hi.min(wl.len()) {
+                for v in wl.run(seed, idx, &mut st) {
+                    println!("V {idx} {} {}", v.kind.replace(' ', "_"), v.detail);
+                }
+            }
+            println!("DONE {}", st.to_json());
+        }
         "debug-wt" => {
             // oalv debug-wt <seed> <from> <to>: print generated programs whose reference is undefined or that are rejected
             let seed: u64 = args[2].parse().unwrap();
